@@ -300,9 +300,10 @@ def timeline(binary, out, script_file):
                 samples.append([round(time.monotonic() - t0, 3), struct.unpack_from("=i", b, 64)[0], struct.unpack_from("=q", b, 48)[0]])
             time.sleep(0.1)
     alive = p.poll() is None
+    final = read_segment()
     kill(p)
     chronyd.stop = True
-    json.dump({"phases": phases, "samples": samples, "daemon_alive_at_end": alive, "chronyd_requests": chronyd.requests}, open(out, "w"))
+    json.dump({"phases": phases, "samples": samples, "daemon_alive_at_end": alive, "chronyd_requests": chronyd.requests, "final_segment": final.hex() if final else None, "file_size": os.path.getsize(SHM) if os.path.exists(SHM) else -1}, open(out, "w"))
 
 
 if __name__ == "__main__":
